@@ -5,4 +5,9 @@ cd "$(dirname "$0")"
 export CARGO_NET_OFFLINE=true
 (cd data && sha256sum --quiet -c SHA256SUMS)
 (cd harness && cargo build --release)
+
+# fuzz targets (thorough tier); a missing nightly toolchain only disables the libFuzzer stage
+if cargo +nightly fuzz --version >/dev/null 2>&1; then
+  (cd fuzz && cargo +nightly fuzz build --fuzz-dir . >/dev/null 2>&1 && echo "fuzz targets built") || echo "fuzz targets NOT built (thorough tier will skip the libFuzzer stage)"
+fi
 echo "setup ok"
